@@ -387,7 +387,9 @@ class OVocab:
             raise Unknown(name)
         # non-strict: a freshly generated pointer is stored under the name
         kind, pos, p, warn = choose_candidate(oa, [v for _, v in self.entries], self.cands, self.pos, 100, self.bound)
-        if kind != "first-below" and kind != "empty":
+        if kind == "least":      # all 100 attempts too similar: the least similar one is stored, WITH a warning
+            self.warns += 1
+        elif kind != "first-below" and kind != "empty":
             raise Undetermined("generator exhausted")
         self.pos = pos
         if not valid_name(name):
@@ -795,6 +797,10 @@ def check_parse(ctx, rng, alg, d, strict, entries, cands, bound, text, tree, nd)
             if [n for n, _ in ov.entries] != [n for n, _ in ents] or any(
                     not vclose(iv, o_floats(ovv)) for (_, ovv), (_, iv) in zip(ov.entries, ents)):
                 ctx.fail(case, [n for n, _ in ents], [n for n, _ in ov.entries], where="parse-nonstrict-created")
+            elif nw != ov.warns:
+                ctx.fail(dict(case, candidates=f"{len(cands)} candidates"), f"{nw} warning(s)",
+                         f"{ov.warns}: one per name created from the least similar candidate after 100 attempts",
+                         where="parse-nonstrict-warning")
     # ---- model ----
     if nd:
         return
@@ -861,6 +867,15 @@ def part_parse(ctx, nd):
             for text_, t_ in [("nan", ("name", "nan")), ("inf", ("name", "inf")), ("-inf", ("neg", ("name", "inf"))),
                               ("infinity", ("name", "infinity")), (" nan ", ("name", "nan")), ("1_0", ("int", 10))]:
                 check_parse(ctx, rng, alg, d, True, entries, cands, bound, text_, t_, nd)
+            # a non-strict vocabulary whose generator only offers too-similar candidates: each name met in the text is
+            # created from the least similar of its 100 attempts, with one warning per creation
+            e0 = [F(1)] + [F(0)] * (d - 1)
+            near = [[F(1) + F((k * 7) % 13, 16)] + [F((k * 5) % 11, 8)] + [F(0)] * (d - 2) for k in range(230)]
+            for text_, t_, ncand in (("A + Q", ("add", ("name", "A"), ("name", "Q")), 100),
+                                     ("Q", ("name", "Q"), 101),
+                                     ("Q * R", ("mul", ("name", "Q"), ("name", "R")), 200),
+                                     ("A + Q - R", ("sub", ("add", ("name", "A"), ("name", "Q")), ("name", "R")), 230)):
+                check_parse(ctx, rng, alg, d, False, [("A", e0)], near[:ncand], F(1, 2), text_, t_, nd)
             for i in range(n_per):
                 entries, cands, bound = setup(rng, alg, d)
                 names = [n for n, _ in entries]
